@@ -66,7 +66,7 @@ static void try_font(uint64_t idx, const TableSet &ts, unsigned opts, ShardCtl &
         mf.drop_outstanding(); std::vector<uint32_t>().swap(mf.log_get);
     }
     size_t bal1 = allocated_bytes(); if (!why && bal1 != bal0) why = "memory still allocated after the face was destroyed";
-    if (why) { JObj o; o.kv("prop", prop).kv("kind", "load_contract").kv("why", why).kv("mutant", desc).kv("options", opts); report_fail(idx, o); }
+    if (why) { JObj o; o.kv("prop", prop).kv("also", "C16").kv("kind", "load_contract").kv("why", why).kv("mutant", desc).kv("options", opts); report_fail(idx, o); }      // release discipline / allocation balance: C01 and C16 both state it
 }
 static std::string mdesc(const Seed &s, uint32_t tag, size_t off, unsigned width, uint64_t val) { char b[200]; snprintf(b, sizeof b, "%s %s@%zu/%u=%llx", s.name.c_str(), tagstr(tag).c_str(), off, width, (unsigned long long)val); return b; }
 
